@@ -473,6 +473,11 @@ func Encode(w io.Writer, file *File, arch binary.ByteOrder) error {
 	if err != nil {
 		return fmt.Errorf("encode failed: Header: %w", err)
 	}
+	if file.Header.Size == headerSizeCRC && len(hdr) == int(headerSizeCRC) {
+		// MarshalBinary has a value receiver, so the CRC it computed
+		// has to be stored back explicitly.
+		file.Header.CRC = le.Uint16(hdr[headerSizeNoCRC:headerSizeCRC])
+	}
 
 	// Calculate file CRC
 	crc := dyncrc16.New()
